@@ -130,7 +130,7 @@ def to_offset_exact_full_statement : Prop :=
     ∀ line column, line < USIZE → column < USIZE →
       LinesM.toOffset ix line column = Lines.toOffset text line column
 
-/-- Refutation witness (finding C12-F10): on `"a\nbc"`, `to_offset(2, usize::MAX)` computes
+/-- Refutation witness (finding F10): on `"a\nbc"`, `to_offset(2, usize::MAX)` computes
 `2 + (2^64-1) - 1` in wrapping arithmetic and answers `Some(0)`; the naive definition rejects it.
 (Replayed through the harness: corpus/C12/finding-1.case.) -/
 theorem to_offset_exact_full_statement_refuted : ¬ to_offset_exact_full_statement := by
